@@ -55,7 +55,8 @@ def older_version(r, entries, base_from, base_to):
         if n["p"] == base_to or r.random() > 0.12:
             continue
         if n["k"] == "d":
-            n.update({"k": r.choice(["f", "l", "l"]), "size": 3, "seed": 4, "segs": None, "target": r.choice(["nowhere", "../zz-target-file"])})
+            # (a link to a real directory elsewhere: a directory "created" there would put the children outside the destination)
+            n.update({"k": r.choice(["f", "l", "l", "l"]), "size": 3, "seed": 4, "segs": None, "target": r.choice(["nowhere", "../zz-target-file", "@ROOT@/by", "@ROOT@/by"])})
             n["flipped"] = True
         elif n["k"] == "f" and r.random() < 0.5:
             n.clear()
